@@ -5,6 +5,7 @@ package main
 
 import (
 	"crypto/sha256"
+	"fmt"
 
 	"github.com/ipfs/go-cid"
 	mh "github.com/multiformats/go-multihash"
@@ -93,6 +94,25 @@ func (bs *blockSet) symlink(target string) pbLink {
 
 func (bs *blockSet) dir(links []pbLink) pbLink {
 	c := bs.add(cid.DagProtobuf, dagpbNode(links, ufsData(ufsDirectory, nil, -1)))
+	return pbLink{Cid: c, Tsize: 0}
+}
+
+// hamtDir encodes the entries as ONE HAMT shard node (UnixFS type 5, fanout 256, murmur3): every link is a
+// value link named <two hex digits><name>. The reader walks the links in node order and strips the two
+// digits without re-hashing, so order, duplicate and hostile names stay under the builder's control.
+func (bs *blockSet) hamtDir(links []pbLink) pbLink {
+	var hl []pbLink
+	bitfield := make([]byte, 32)
+	for i, l := range links {
+		slot := i % 256
+		bitfield[31-slot/8] |= 1 << (slot % 8)
+		hl = append(hl, pbLink{Name: fmt.Sprintf("%02X%s", slot, l.Name), Cid: l.Cid, Tsize: l.Tsize})
+	}
+	d := pbUint(1, 5)
+	d = append(d, pbBytes(2, bitfield)...)
+	d = append(d, pbUint(5, 0x22)...)
+	d = append(d, pbUint(6, 256)...)
+	c := bs.add(cid.DagProtobuf, dagpbNode(hl, d))
 	return pbLink{Cid: c, Tsize: 0}
 }
 
